@@ -193,7 +193,7 @@ Definition succs (x : xstate) : list xstate :=
 (* ---- views ---- *)
 Definition ev_actor (e : event) : option aid :=
   match e with
-  | EvStartEnter a | EvStartExit a _ | EvHandleEnter a _ | EvHandleExit a _ _ | EvTellResult a _
+  | EvStartEnter a | EvStartExit a _ | EvHandleEnter a _ _ | EvHandleExit a _ _ | EvTellResult a _
   | EvRunDone a _ | EvStopEnter a _ | EvStopExit a _ | EvDeadlock a _ => Some a
   | _ => None end.
 Definition actor_events (s : sys) (a : aid) : list event :=
